@@ -126,7 +126,7 @@ CHECKS = {
                 note="Bounds per scenario/pool are listed in the evidence (levels_completed); race-freedom rests on a dynamic detector over sampled free runs, as a serialising scheduler cannot see races."),
     "C19": dict(engine="execmc", category="model_checking", design_ref="DESIGN.md §4 C19",
                 technique="deviation-bounded exhaustive enumeration of environment answers (delays, failures) driving the real executor tick by tick, with monitors on the callback stream and on the adapted plan",
-                text="Twelve solved plans x three tick sizes (1, 1/2, 2 units); every execution with at most 3 (thorough 4, then 5 while the deadline allows) non-default environment answers (dont_start_yet / "
+                text="Thirteen solved plans x three tick sizes (1, 1/2, 2 units); every execution with at most 3 (thorough 4, then 5 while the deadline allows) non-default environment answers (dont_start_yet / "
                      "dont_end_yet with delay 1 or 2 at every starting/ending callback, failure of a running atom before every tick) is run to "
                      "a fixed horizon on a fresh solver+executor; monitors check time advance, exactly-once start/end in order and not before "
                      "the planned time, no start/end in a delaying tick without a new notification, validity of the adapted plan (well-formed, no overlap, resource capacity) and immobility of started/ended atoms.",
